@@ -357,6 +357,9 @@ def run(ctx):
     # ------------------------------------------------------------------ R17.10
     rule_named_plumbing(ctx, capi)
 
+    # ------------------------------------------------------------------ R17.11 (generic, scoped to this property's anchors)
+    sm.rule_named_plumbing(ctx, capi, "C17", "R17.11", floor=10)
+
     ctx.not_decided += ["byte-for-byte equality of C-driven and Rust-driven runs (a run-time relation)", "allocator hygiene over all create/use/free histories (sanitizer territory)"]
     return ("Wrapper discipline of the C API: %d header prototypes compared with the exported extern \"C\" signatures (arity and type class) and the repr(C) struct "
             "layouts, namesake routing of %d accessor/mutator wrappers, catch_panic containment, Err-edge to save_last_error reachability, and ownership pairing." % (len(hdr["funcs"]), len(ext)))
